@@ -1275,9 +1275,11 @@ class ASTSingleSelectStatement(ASTSelectStatement):
     def source(self, sql_type: SQLType = SQLType.DEFAULT) -> str:
         """返回语法节点的 SQL 源码"""
         with_clause_str = self.with_clause.source(sql_type) + "\n" if not self.with_clause.is_empty() else ""
-        if sql_type != SQLType.HIVE and (len(self.lateral_view_clauses) > 0 or self.sort_by_clause is not None
-                                         or self.distribute_by_clause is not None or self.cluster_by_clause is not None):
-            raise NotSupportError(f"LATERAL VIEW、SORT BY、DISTRIBUTE BY、CLUSTER BY 子句不支持SQL类型:{sql_type}")
+        if sql_type != SQLType.HIVE and (self.sort_by_clause is not None or self.distribute_by_clause is not None
+                                         or self.cluster_by_clause is not None):
+            raise NotSupportError(f"SORT BY、DISTRIBUTE BY、CLUSTER BY 子句不支持SQL类型:{sql_type}")
+        if sql_type not in {SQLType.HIVE, SQLType.DEFAULT} and len(self.lateral_view_clauses) > 0:
+            raise NotSupportError(f"LATERAL VIEW 子句不支持SQL类型:{sql_type}")
         result = [self.select_clause.source(sql_type)]
 
         # 构造子句的顺序列表
@@ -1353,7 +1355,8 @@ class ASTInsertStatement(ASTStatementHasWithClauseBase, abc.ABC):
     columns: Optional[Tuple[ASTColumnNameExpression, ...]] = dataclasses.field(kw_only=True)
 
     def _insert_str(self, sql_type: SQLType) -> str:
-        if self.insert_type.enum == static.EnumInsertType.INSERT_OVERWRITE and sql_type != SQLType.HIVE:
+        if (self.insert_type.enum == static.EnumInsertType.INSERT_OVERWRITE
+                and sql_type not in {SQLType.HIVE, SQLType.DEFAULT}):
             raise NotSupportError(f"INSERT OVERWRITE 不支持SQL类型:{sql_type}")
         insert_type_str = self.insert_type.source(sql_type)
         table_keyword_str = "TABLE " if sql_type == SQLType.HIVE else ""
